@@ -422,16 +422,18 @@ PROPS = {
     "C20": {
         "units": ["response_parse", "range_parse", "base64_decode", "request_parse", "multipart"],
         "level": "proof",
-        "falsifier": ["parsers", "range"],
-        "always_explore": ["parsers"],
+        "falsifier": ["parsers", "range", "stack"],
+        "always_explore": ["parsers", "stack"],
         "case_prefixes": ["c20_", "panic"],
+        "known_cases": ["c20_stack_request", "c20_stack_response", "c20_stack_multipart", "c20_stack_byteranges"],   # known findings: known_findings.txt
         "counts": counts_for("C20"),
         "samples": [
             "Response::parse_raw_response_via_cursor / termination / decreases rem(old(cursor)).len()",
             "Range::parse_multipart_body_with_boundary / termination + no overflow / decreases rem(old(cursor)).len(); loop: rem(cursor).len() + (is_not_boundary ? 1 : 0)",
             "Base64::decode / every input returns Ok or Err (functional contract proved)",
         ],
-        "assumptions": ["entry points NOT yet under contract (listed so that the claim is not read as complete): JSON object/array parsers, config-file reader, UrlPath::extract_parts_from_pattern"],
+        "assumptions": ["entry points NOT yet under contract (listed so that the claim is not read as complete): JSON object/array parsers, config-file reader, UrlPath::extract_parts_from_pattern",
+                        "termination is proved; STACK DEPTH is not expressible in a contract: Request::parse, Response::parse, FormMultipartData::parse and the multipart/byteranges reader recurse once per line / per part and overflow a 2 MiB thread stack for inputs of 0.2 - 1 MB (known findings, reproduced on every run by the `stack` routine in child processes)"],
     },
     "C01": {
         "units": ["static", "controllers"],
@@ -499,7 +501,7 @@ PROPS = {
         "counts": counts_for("C04"),
         "samples": ["Server::process / every unwrap, index, cast and arithmetic operation / panic-freedom for an arbitrary transport and Application",
                     "Request::cursor_read / termination / decreases rem(old(cursor)).len()"],
-        "assumptions": ["stack depth of the per-header recursion in Request::cursor_read is not expressible (termination is proved, a stack bound is not)"],
+        "assumptions": ["stack depth of the per-header recursion in Request::cursor_read is not expressible (termination is proved, a stack bound is not): with the default 10000-byte request buffer the depth stays below 5000 frames, which fits the 2 MiB worker stack in optimised builds (probed on every C20 run: case c20_stack_request_within_default_buffer must not fire; an unoptimised debug build overflows at about 2000 header lines); a configured buffer of 40 KB or more makes the overflow reachable from the network (known finding listed under C20)"],
     },
     "C10": {
         "units": ["header_list", "cors", "server", "app", "controllers", "forms"],
